@@ -556,8 +556,8 @@ def reference_oracle(case, impl):
                 if not close(got, want):
                     bad.append(('factor %r -> %r is %r, the definitions give %r' % (op[1], op[2], got, want), {'from': op[1], 'to': op[2]}))
             else:
-                same_rad = d.get(-8, 0) == 0
-                if same_rad and bool(r[1]) != exact_one:
+                # radian (generator -8, pint's base unit without a dimension) takes no part in equivalence
+                if bool(r[1]) != exact_one:
                     bad.append(('is_equivalent(%r, %r) is %r, but the ratio of the SI scales is %r' % (op[1], op[2], r[1], want),
                                 {'a': op[1], 'b': op[2]}))
     return bad
@@ -728,4 +728,5 @@ def radian_content_differs(case):
     return bool(d.get('radian_content_differs')) and d.get('equivalent') is False and d.get('factor') == 'one'
 
 
-KNOWN_PREDICATES = {'radian_content_differs': radian_content_differs}
+# the radian finding was repaired by a fix: commit in /repo; nothing is suppressed any more
+KNOWN_PREDICATES = {}
